@@ -172,7 +172,16 @@ fn run_set(ctx: &Ctx, gf: &Gf, seed: u64, idx: u64, st: &Stats) {
         let mut dup_after = 0u64;
         for (i, p) in pk.iter().enumerate() {
             if i == clone_at {
-                d3 = Some(d1.clone());
+                // every second clone is made with clone_from into a decoder that served another transfer
+                // (other sub-block count, symbol size and block count)
+                d3 = Some(if hi % 2 == 0 {
+                    d1.clone()
+                } else {
+                    let other = raptorq::ObjectTransmissionInformation::new(((s.Z + 1) * 3 * 8 * (s.N + 1)) as u64, (8 * (s.N + 1)) as u16, (s.Z + 1).min(255) as u8, (s.N + 1) as u16, 8);
+                    let mut scratch = Decoder::new(other);
+                    scratch.clone_from(&d1);
+                    scratch
+                });
                 st.clones.fetch_add(1, Relaxed);
             }
             let (z, e) = hist[i];
@@ -291,11 +300,31 @@ fn run_set(ctx: &Ctx, gf: &Gf, seed: u64, idx: u64, st: &Stats) {
             let mut d = mk();
             let mut one: Vec<bool> = vec![];
             let mut last = None;
-            for p in pk.iter() {
-                if last.is_none() {
-                    last = d.decode(std::iter::once(p.clone()));
+            // the block decoder keeps being called after it has answered (late packets, duplicates, an empty
+            // call): every later return must repeat the first answer
+            let mut changed_after: Option<usize> = None;
+            for (i, p) in pk.iter().enumerate() {
+                let r = d.decode(std::iter::once(p.clone()));
+                match (&last, r) {
+                    (None, r) => last = r,
+                    (Some(f), Some(v)) => {
+                        if *f != v && changed_after.is_none() {
+                            changed_after = Some(i);
+                        }
+                    }
+                    (Some(_), None) => {
+                        if changed_after.is_none() {
+                            changed_after = Some(i);
+                        }
+                    }
                 }
                 one.push(last.is_some());
+            }
+            if let Some(f) = &last {
+                let r = d.decode(std::iter::empty());
+                if r.as_ref() != Some(f) && changed_after.is_none() {
+                    changed_after = Some(pk.len());
+                }
             }
             // random batches
             let mut d = mk();
@@ -314,12 +343,15 @@ fn run_set(ctx: &Ctx, gf: &Gf, seed: u64, idx: u64, st: &Stats) {
             }
             // one shot
             let all = mk().decode(pk.iter().cloned());
-            (one, last, cuts, batched, all)
+            (one, last, cuts, batched, all, changed_after)
         });
         st.batchings.fetch_add(1, Relaxed);
         match r {
             Err(m) => ctx.violation(sig("batch-panic", 0), format!("{:?}: block-level decode panicked: {}", s, short(&m, 120)), replay()),
-            Ok((one, last, cuts, batched, all)) => {
+            Ok((one, last, cuts, batched, all, changed_after)) => {
+                if let Some(i) = changed_after {
+                    ctx.violation(sig("block-unstable", 0), format!("{:?}: block {z}: the block decoder had answered, and call {i} afterwards (late packet / duplicate / empty call) returned something else", s), replay());
+                }
                 let want = block_bytes(&c.data, &s, z);
                 for (what, v) in [("packet-by-packet", &last), ("batched", &batched), ("one-shot", &all)] {
                     if let Some(v) = v {
